@@ -18,7 +18,7 @@ RULE = ("the OS random source (os.urandom, random._urandom, os.getrandom) is rep
         "states of the process-wide PRNG and in two separate processes, different for different answers; (3) decoded with the reference, "
         "every one of the ENT entropy bits takes both values and all mnemonics are pairwise distinct; (4) call histories of length <=3 over "
         "a 3-answer alphabet (27 per entry point): result j depends on answer j only; (5) with the REAL OS source, resetting random.seed "
-        "does not repeat the wallet. non-trivial = a creation whose OS requests were logged and whose mnemonic was decoded; distinct = "
+        "does not repeat the wallet; (6) when every request to the OS source raises (NotImplementedError / OSError) no wallet is returned. non-trivial = a creation whose OS requests were logged and whose mnemonic was decoded; distinct = "
         "distinct (entry point, length, answer | history | PRNG state)")
 
 ENTRIES = ["BaseWallet.new_wallet", "BaseWallet.from_entropy_bits", "PaperWallet.new_wallet", "mnemonic_from_entropy_bits", "cli-new"]
@@ -210,6 +210,23 @@ def chk_history(entry, words, hist):
     return viols
 
 
+def chk_source_failure(entry, words, exc_name):
+    """the OS source is unavailable (every request raises): a wallet that is returned anyway took its entropy elsewhere"""
+    exc = {"NotImplementedError": NotImplementedError, "OSError": OSError}[exc_name]
+    calls = []
+
+    def failing(n, *a):
+        calls.append(n)
+        raise exc("OS random source unavailable (injected)")
+    with scripted(failing):
+        set_prng("seed0")
+        st, m = attempt(create, entry, words, failing)
+    if st == "ok":
+        return [V("%s:%s:os-source-unavailable:wallet-created-anyway" % (P, entry),
+                  "%d words: the OS source raised %s on every request (%d requests) but a mnemonic was returned: %r..." % (words, exc_name, len(calls), str(m)[:30]))]
+    return []
+
+
 def chk_real_source(entry, words):
     _random.seed(7)
     st, a = attempt(create, entry, words, None)
@@ -233,6 +250,9 @@ def execute(case):
     if k == "history":
         vs = isolated(chk_history, case["entry"], case["words"], case["hist"])
         return R("violation" if vs else "history-independent", viols=vs)
+    if k == "fail":
+        vs = isolated(chk_source_failure, case["entry"], case["words"], case["exc"])
+        return R("violation" if vs else "refused-without-os-entropy", viols=vs)
     if k == "real":
         vs = isolated(chk_real_source, case["entry"], case["words"])
         return R("violation" if vs else "real-source-fresh", viols=vs)
@@ -283,6 +303,8 @@ def run(ctx):
     hists = [list(h) for L in (1, 2, 3) for h in itertools.product(range(3), repeat=L)]
     hc = [{"k": "history", "entry": e, "words": w, "hist": h} for e in entries if e != "cli-new" for w in ((12, 24) if not ctx.thorough else LENGTHS) for h in hists]
     ctx.product("call-histories", hc, execute, chunk=4)
+    ctx.product("os-source-unavailable", [{"k": "fail", "entry": e, "words": w, "exc": x} for e in entries for w in (12, 15, 24)
+                                          for x in ("NotImplementedError", "OSError")], execute, chunk=2)
     ctx.product("real-os-source", [{"k": "real", "entry": e, "words": w} for e in ENTRIES[:4] for w in LENGTHS], execute, chunk=2)
     return {"entry_points": entries, "request_sizes": sorted({x["R"] for x in agg["x"]}), "prng_states": ["seed0", "seed1", "after1000"],
             "history_alphabet": 3, "history_max_len": 3}
